@@ -113,6 +113,11 @@ func c06World(tp *Tape, env *Env) (*Plan, *Violation) {
 		InlinePct: 45, TagPct: 10, CondPct: 40, NonASCII: tp.Bool("nonascii"), Faults: tp.Int(1, 2, "nfaults"),
 	}
 	cfg.Handlers = drawHandlers(tp, 2)
+	if tp.Chance(30, "hostfnwrites") {
+		// host functions that write, retype or clear variables from inside the evaluation of a statement
+		cfg.HostFnWrites = true
+		cfg.WCall += 3
+	}
 	if len(cfg.Handlers) > 0 && tp.Chance(12, "oddchan") {
 		// a handler whose result is a send-only channel or a channel of a concrete error type
 		cfg.Handlers[0].Shape = []string{"conv_sendchan", "conv_errtypechan"}[tp.Int(0, 1, "oddchankind")]
